@@ -1,6 +1,987 @@
-//! C09 — not built yet.
-use crate::report::{Ctx, Reporter};
+//! C09 — App routing picks the first registered match and exposes exactly its parameters.
+//!
+//! Observation: a real `App` is built from a generated routing table (nested scopes, resources
+//! with several routes, `.route()` sugar, real `Method` / `Header` / `Host` guards, default
+//! services, per-level `app_data` of two marker types), initialised with
+//! `actix_web::test::init_service`, and called with `call_service`.  Every route handler and every
+//! custom default service answers with its identity, the complete `match_info` (names and values
+//! in order) and the values of both `app_data` markers it can see.
+//!
+//! Oracle: `refmodel::route_tree` interprets the same table for the same request (first registered
+//! match depth-first, segment-boundary prefixes, commit on scope / resource, guards, defaults,
+//! parameters outer-to-inner from the partially percent-decoded path, innermost data).  The
+//! answering service must be (one of) the expected one(s); when it is a handler or a custom
+//! default, `match_info` and both markers must be equal to the model's.
 
-pub fn run(_ctx: &Ctx, rep: &mut Reporter) {
-    rep.inconclusive("C09 monitor not built");
+use std::collections::HashSet;
+
+use actix_web::{guard, http::Method, test, web, App, HttpRequest, HttpResponse, Resource, Route, Scope};
+use serde_json::{json, Value};
+
+use crate::{
+    refmodel::{
+        pct_decode,
+        route_tree::{self as rt, Expected, Guard, Node, Req, Table, Who},
+    },
+    report::{guard as catch, panic_site, Ctx, Reporter},
+    util::Rng,
+    world::exec::run_virtual,
+};
+
+struct M0(u32);
+struct M1(u32);
+
+// ------------------------------------------------------------------------------------------------
+// building the real application from a table
+
+fn describe(req: &HttpRequest, kind: &'static str, id: u32) -> String {
+    let mi: Vec<(String, String)> = req.match_info().iter().map(|(k, v)| (k.to_string(), v.to_string())).collect();
+    let d0 = req.app_data::<M0>().map(|m| m.0);
+    let d1 = req.app_data::<M1>().map(|m| m.0);
+    json!({"k": kind, "id": id, "mi": mi, "d": [d0, d1]}).to_string()
+}
+
+fn static_hdr(n: &str, v: &str) -> (&'static str, &'static str) {
+    let n: &'static str = match n {
+        "x-k" => "x-k",
+        _ => "x-other",
+    };
+    let v: &'static str = match v {
+        "1" => "1",
+        "2" => "2",
+        _ => "other",
+    };
+    (n, v)
+}
+
+fn mk_route(r: &rt::Route, kind: &'static str) -> Route {
+    let mut route = web::route();
+    for g in &r.guards {
+        route = match g {
+            Guard::Method(m) => route.method(Method::from_bytes(m.as_bytes()).unwrap()),
+            Guard::Header(n, v) => {
+                let (n, v) = static_hdr(n, v);
+                route.guard(guard::Header(n, v))
+            }
+            Guard::Host(h) => route.guard(guard::Host(h.clone())),
+        };
+    }
+    let id = r.id;
+    route.to(move |req: HttpRequest| {
+        let body = describe(&req, kind, id);
+        async move { HttpResponse::Ok().body(body) }
+    })
+}
+
+fn mk_default(id: u32) -> Route {
+    mk_route(&rt::Route { id, guards: vec![] }, "d")
+}
+
+fn mk_resource(patterns: &[String], guards: &[Guard], routes: &[rt::Route], default: Option<u32>, data: &[Option<u32>; 2]) -> Resource {
+    let mut r = if patterns.len() == 1 { web::resource(patterns[0].as_str()) } else { web::resource(patterns.to_vec()) };
+    for g in guards {
+        r = match g {
+            Guard::Method(m) => r.guard(guard::Method(Method::from_bytes(m.as_bytes()).unwrap())),
+            Guard::Header(n, v) => {
+                let (n, v) = static_hdr(n, v);
+                r.guard(guard::Header(n, v))
+            }
+            Guard::Host(h) => r.guard(guard::Host(h.clone())),
+        };
+    }
+    for route in routes {
+        r = r.route(mk_route(route, "h"));
+    }
+    if let Some(d) = default {
+        r = r.default_service(mk_default(d));
+    }
+    if let Some(v) = data[0] {
+        r = r.app_data(M0(v));
+    }
+    if let Some(v) = data[1] {
+        r = r.app_data(M1(v));
+    }
+    r
+}
+
+fn mk_scope(prefix: &str, guards: &[Guard], children: &[Node], default: Option<u32>, data: &[Option<u32>; 2]) -> Scope {
+    let mut s = web::scope(prefix);
+    for g in guards {
+        s = match g {
+            Guard::Method(m) => s.guard(guard::Method(Method::from_bytes(m.as_bytes()).unwrap())),
+            Guard::Header(n, v) => {
+                let (n, v) = static_hdr(n, v);
+                s.guard(guard::Header(n, v))
+            }
+            Guard::Host(h) => s.guard(guard::Host(h.clone())),
+        };
+    }
+    for c in children {
+        s = match c {
+            Node::Resource { patterns, guards, routes, default, data, .. } => s.service(mk_resource(patterns, guards, routes, *default, data)),
+            Node::Sugar { path, route } => s.route(path, mk_route(route, "h")),
+            Node::Scope { prefix, guards, children, default, data, .. } => s.service(mk_scope(prefix, guards, children, *default, data)),
+        };
+    }
+    if let Some(d) = default {
+        s = s.default_service(mk_default(d));
+    }
+    if let Some(v) = data[0] {
+        s = s.app_data(M0(v));
+    }
+    if let Some(v) = data[1] {
+        s = s.app_data(M1(v));
+    }
+    s
+}
+
+#[derive(Clone, Debug, PartialEq, Eq)]
+struct Obs {
+    status: u16,
+    /// "h" handler, "d" custom default; None for the built-in answers
+    kind: Option<String>,
+    id: u32,
+    mi: Vec<(String, String)>,
+    d: [Option<u32>; 2],
+}
+
+impl Obs {
+    fn who(&self) -> Option<Who> {
+        match (self.status, self.kind.as_deref()) {
+            (200, Some("h")) => Some(Who::Route(self.id)),
+            (200, Some("d")) => Some(Who::Default(self.id)),
+            (404, None) => Some(Who::NotFound),
+            (405, None) => Some(Who::MethodNotAllowed),
+            _ => None,
+        }
+    }
+}
+
+fn uri_of(r: &Req) -> String {
+    match &r.query {
+        Some(q) => format!("{}?{}", r.path, q),
+        None => r.path.clone(),
+    }
+}
+
+/// Run the requests against the real application built from `table`.
+fn exec(table: &Table, reqs: &[Req]) -> Result<Vec<Obs>, String> {
+    let table = table.clone();
+    let reqs = reqs.to_vec();
+    catch(move || {
+        run_virtual(async move {
+            let mut app = App::new();
+            for c in &table.children {
+                app = match c {
+                    Node::Resource { patterns, guards, routes, default, data, .. } => app.service(mk_resource(patterns, guards, routes, *default, data)),
+                    Node::Sugar { path, route } => app.route(path, mk_route(route, "h")),
+                    Node::Scope { prefix, guards, children, default, data, .. } => app.service(mk_scope(prefix, guards, children, *default, data)),
+                };
+            }
+            if let Some(d) = table.default {
+                app = app.default_service(mk_default(d));
+            }
+            if let Some(v) = table.data[0] {
+                app = app.app_data(M0(v));
+            }
+            if let Some(v) = table.data[1] {
+                app = app.app_data(M1(v));
+            }
+            let svc = test::init_service(app).await;
+            let mut out = Vec::with_capacity(reqs.len());
+            for r in &reqs {
+                let mut tr = test::TestRequest::default().method(Method::from_bytes(r.method.as_bytes()).unwrap()).uri(&uri_of(r));
+                if let Some((n, v)) = &r.header {
+                    tr = tr.insert_header((n.as_str(), v.as_str()));
+                }
+                if let Some(h) = &r.host {
+                    tr = tr.insert_header(("host", h.as_str()));
+                }
+                let resp = test::call_service(&svc, tr.to_request()).await;
+                let status = resp.status().as_u16();
+                let body = test::read_body(resp).await;
+                let mut o = Obs { status, kind: None, id: 0, mi: vec![], d: [None, None] };
+                if !body.is_empty() {
+                    if let Ok(v) = serde_json::from_slice::<Value>(&body) {
+                        o.kind = v["k"].as_str().map(|s| s.to_string());
+                        o.id = v["id"].as_u64().unwrap_or(0) as u32;
+                        o.mi = v["mi"]
+                            .as_array()
+                            .map(|a| a.iter().map(|p| (p[0].as_str().unwrap_or("").to_string(), p[1].as_str().unwrap_or("").to_string())).collect())
+                            .unwrap_or_default();
+                        o.d = [v["d"][0].as_u64().map(|x| x as u32), v["d"][1].as_u64().map(|x| x as u32)];
+                    } else {
+                        o.kind = Some("unparsable".into());
+                    }
+                }
+                out.push(o);
+            }
+            out
+        })
+    })
+}
+
+// ------------------------------------------------------------------------------------------------
+// rendering (details, signatures)
+
+fn render_guards(gs: &[Guard]) -> String {
+    if gs.is_empty() {
+        return String::new();
+    }
+    let v: Vec<String> = gs
+        .iter()
+        .map(|g| match g {
+            Guard::Method(m) => m.clone(),
+            Guard::Header(n, v) => format!("{n}={v}"),
+            Guard::Host(h) => format!("host={h}"),
+        })
+        .collect();
+    format!("<{}>", v.join("&"))
+}
+
+fn render_extra(default: Option<u32>, data: &[Option<u32>; 2]) -> String {
+    let mut s = String::new();
+    if let Some(d) = default {
+        s.push_str(&format!(" default=d{d}"));
+    }
+    if let Some(v) = data[0] {
+        s.push_str(&format!(" M0={v}"));
+    }
+    if let Some(v) = data[1] {
+        s.push_str(&format!(" M1={v}"));
+    }
+    s
+}
+
+fn render_nodes(ns: &[Node]) -> String {
+    ns.iter()
+        .map(|n| match n {
+            Node::Resource { patterns, guards, routes, default, data, .. } => {
+                let rs: Vec<String> = routes.iter().map(|r| format!("{}h{}", render_guards(&r.guards), r.id)).collect();
+                format!("resource({:?}){}[{}]{}", patterns, render_guards(guards), rs.join(","), render_extra(*default, data))
+            }
+            Node::Sugar { path, route } => format!("route({:?}){}h{}", path, render_guards(&route.guards), route.id),
+            Node::Scope { prefix, guards, children, default, data, .. } => {
+                format!("scope({:?}){}{}{{{}}}", prefix, render_guards(guards), render_extra(*default, data), render_nodes(children))
+            }
+        })
+        .collect::<Vec<_>>()
+        .join("; ")
+}
+
+fn render_table(t: &Table) -> String {
+    format!("app{}{{{}}}", render_extra(t.default, &t.data), render_nodes(&t.children))
+}
+
+fn render_req(r: &Req) -> String {
+    let mut s = format!("{} {}", r.method, uri_of(r));
+    if let Some((n, v)) = &r.header {
+        s.push_str(&format!(" {n}:{v}"));
+    }
+    if let Some(h) = &r.host {
+        s.push_str(&format!(" host:{h}"));
+    }
+    s
+}
+
+/// pattern kind for shapes: static / dynamic / custom class / tail, slash structure kept
+fn pat_kind(p: &str) -> String {
+    let mut s = String::new();
+    let mut depth = 0;
+    let mut lit = false;
+    for c in p.chars() {
+        match c {
+            '{' => {
+                depth += 1;
+                if depth == 1 {
+                    s.push('V');
+                    lit = false;
+                }
+            }
+            '}' => depth -= 1,
+            ':' if depth == 1 => s.push('c'),
+            '*' if depth == 0 => s.push('*'),
+            '/' if depth == 0 => {
+                s.push('/');
+                lit = false;
+            }
+            _ if depth == 0 => {
+                if !lit {
+                    s.push('L');
+                    lit = true;
+                }
+            }
+            _ => {}
+        }
+    }
+    s
+}
+
+fn shape_nodes(ns: &[Node]) -> String {
+    ns.iter()
+        .map(|n| match n {
+            Node::Resource { patterns, guards, routes, default, data, .. } => format!(
+                "R({}){}{}{}{}",
+                patterns.iter().map(|p| pat_kind(p)).collect::<Vec<_>>().join("|"),
+                if guards.is_empty() { "" } else { "g" },
+                routes.iter().map(|r| if r.guards.is_empty() { "r" } else { "rg" }).collect::<String>(),
+                if default.is_some() { "d" } else { "" },
+                if data.iter().any(|d| d.is_some()) { "m" } else { "" }
+            ),
+            Node::Sugar { path, route } => format!("S({}){}", pat_kind(path), if route.guards.is_empty() { "" } else { "g" }),
+            Node::Scope { prefix, guards, children, default, data, .. } => format!(
+                "C({}){}{}{}[{}]",
+                pat_kind(prefix),
+                if guards.is_empty() { "" } else { "g" },
+                if default.is_some() { "d" } else { "" },
+                if data.iter().any(|d| d.is_some()) { "m" } else { "" },
+                shape_nodes(children)
+            ),
+        })
+        .collect::<Vec<_>>()
+        .join(",")
+}
+
+fn shape(t: &Table) -> String {
+    format!("A{}[{}]", if t.default.is_some() { "d" } else { "" }, shape_nodes(&t.children))
+}
+
+// ------------------------------------------------------------------------------------------------
+// table generation
+
+const SCOPE_PREFIXES: [&str; 18] = [
+    "", "/", "/a", "a", "/a/", "/b", "/ab", "/a/b", "/{x}", "/{x}/", r"/{x:\d+}", "/{x:[a-z]+}", "/a/{x}", "{x}", "/{x:[^/]*}", "//", "/a{x}", "/{x}/{w}",
+];
+const RES_PATTERNS: [&str; 28] = [
+    "", "/", "/a", "a", "/a/", "/b", "/ab", "/a/b", "/1", "/{y}", "/{y}/", r"/{y:\d+}", "/{y:[a-z]+}", "/{y}/{z}", "/a/{y}", "/{x}", "/a{y}", "/{y:[^/]*}", "/{t}*",
+    "/a/{t}*", "{t}*", "/{y:.*}", "//", "/{y}/a", "/b/{y}", "{y}", "/{y:.+}/{z}", "/{y:a|ab}b",
+];
+const METHODS: [&str; 3] = ["GET", "POST", "DELETE"];
+
+struct Gen<'a> {
+    rng: &'a mut Rng,
+    next_id: u32,
+    budget: usize,
+}
+
+impl Gen<'_> {
+    fn id(&mut self) -> u32 {
+        self.next_id += 1;
+        self.next_id
+    }
+    fn guard(&mut self) -> Guard {
+        match self.rng.below(6) {
+            0..=2 => Guard::Method(self.rng.pick(&METHODS).to_string()),
+            3 => Guard::Header("x-k".into(), "1".into()),
+            4 => Guard::Header("x-k".into(), "2".into()),
+            _ => Guard::Host(self.rng.pick(&["h1.test", "h2.test"]).to_string()),
+        }
+    }
+    fn guards(&mut self, p_num: usize, p_den: usize) -> Vec<Guard> {
+        if !self.rng.chance(p_num, p_den) {
+            return vec![];
+        }
+        let n = if self.rng.chance(1, 4) { 2 } else { 1 };
+        (0..n).map(|_| self.guard()).collect()
+    }
+    fn data(&mut self, p_num: usize, p_den: usize) -> [Option<u32>; 2] {
+        let mut d = [None, None];
+        for slot in d.iter_mut() {
+            if self.rng.chance(p_num, p_den) {
+                *slot = Some(self.id());
+            }
+        }
+        d
+    }
+    fn route(&mut self) -> rt::Route {
+        let guards = match self.rng.below(8) {
+            0..=3 => vec![Guard::Method(self.rng.pick(&METHODS).to_string())],
+            4 => vec![],
+            5 => vec![self.guard()],
+            6 => vec![Guard::Method(self.rng.pick(&METHODS).to_string()), self.guard()],
+            _ => vec![Guard::Header("x-k".into(), "1".into())],
+        };
+        rt::Route { id: self.id(), guards }
+    }
+    fn resource(&mut self, last: Option<&str>) -> Node {
+        let np = match self.rng.below(10) {
+            0 => 3,
+            1 | 2 => 2,
+            _ => 1,
+        };
+        let mut patterns: Vec<String> = (0..np).map(|_| self.rng.pick(&RES_PATTERNS).to_string()).collect();
+        // overlap with the previous sibling on purpose now and then
+        if let Some(l) = last {
+            if self.rng.chance(1, 4) {
+                patterns[0] = l.to_string();
+            }
+        }
+        let nr = match self.rng.below(8) {
+            0 => 0,
+            1..=4 => 1,
+            5 | 6 => 2,
+            _ => 3,
+        };
+        Node::Resource {
+            id: self.id(),
+            patterns,
+            guards: self.guards(1, 4),
+            routes: (0..nr).map(|_| self.route()).collect(),
+            default: if self.rng.chance(1, 5) { Some(self.id()) } else { None },
+            data: self.data(1, 4),
+        }
+    }
+    fn nodes(&mut self, depth: usize) -> Vec<Node> {
+        let n = self.rng.range(if depth == 0 { 1 } else { 0 }, 4);
+        let mut out: Vec<Node> = vec![];
+        let mut last: Option<String> = None;
+        for _ in 0..n {
+            if self.budget == 0 {
+                break;
+            }
+            self.budget -= 1;
+            let k = self.rng.below(10);
+            let node = if k < 3 && depth < 2 {
+                let mut prefix = self.rng.pick(&SCOPE_PREFIXES).to_string();
+                if let Some(l) = &last {
+                    // a prefix that is also a resource
+                    if self.rng.chance(1, 3) && !l.contains('*') {
+                        prefix = l.clone();
+                    }
+                }
+                let id = self.id();
+                let guards = self.guards(1, 4);
+                let default = if self.rng.chance(1, 3) { Some(self.id()) } else { None };
+                let data = self.data(1, 3);
+                let children = self.nodes(depth + 1);
+                last = Some(prefix.clone());
+                Node::Scope { id, prefix, guards, children, default, data }
+            } else if k < 5 {
+                let mut path = self.rng.pick(&RES_PATTERNS).to_string();
+                if let Some(l) = &last {
+                    if self.rng.chance(1, 3) {
+                        path = l.clone();
+                    }
+                }
+                last = Some(path.clone());
+                Node::Sugar { path, route: self.route() }
+            } else {
+                let r = self.resource(last.as_deref());
+                if let Node::Resource { patterns, .. } = &r {
+                    last = Some(patterns[0].clone());
+                }
+                r
+            };
+            out.push(node);
+        }
+        out
+    }
+}
+
+fn gen_table(rng: &mut Rng) -> Table {
+    for _ in 0..50 {
+        let mut g = Gen { rng, next_id: 0, budget: 8 };
+        let default = if g.rng.chance(1, 3) { Some(g.id()) } else { None };
+        let data = g.data(1, 2);
+        let children = g.nodes(0);
+        let t = Table { children, default, data };
+        if rt::well_formed(&t) {
+            return t;
+        }
+    }
+    Table { children: vec![], default: None, data: [None, None] }
+}
+
+/// Hand-written tables, one per rule of DESIGN.md A.1 (run with the deeper path enumeration).
+fn fixed_tables() -> Vec<Table> {
+    let r = |id: u32, gs: Vec<Guard>| rt::Route { id, guards: gs };
+    let get = || vec![Guard::Method("GET".into())];
+    let del = || vec![Guard::Method("DELETE".into())];
+    let res = |id: u32, p: &[&str], routes: Vec<rt::Route>| Node::Resource {
+        id,
+        patterns: p.iter().map(|s| s.to_string()).collect(),
+        guards: vec![],
+        routes,
+        default: None,
+        data: [None, None],
+    };
+    let scope = |id: u32, p: &str, children: Vec<Node>, default: Option<u32>, data: [Option<u32>; 2]| Node::Scope { id, prefix: p.into(), guards: vec![], children, default, data };
+    vec![
+        // trailing-slash prefix, empty and "/" resources inside a scope
+        Table {
+            children: vec![
+                scope(1, "/a/", vec![res(2, &["/b"], vec![r(3, vec![])]), res(4, &[""], vec![r(5, vec![])])], None, [None, None]),
+                scope(6, "/a", vec![res(7, &[""], vec![r(8, vec![])]), res(9, &["/"], vec![r(10, vec![])]), res(11, &["/b"], vec![r(12, get())])], None, [Some(13), None]),
+            ],
+            default: None,
+            data: [Some(14), Some(15)],
+        },
+        // scope("") commits and hides later siblings
+        Table {
+            children: vec![scope(1, "", vec![res(2, &["/a"], vec![r(3, vec![])])], None, [None, None]), res(4, &["/b"], vec![r(5, vec![])])],
+            default: Some(6),
+            data: [None, None],
+        },
+        // sugar routes hoist guards (fall through to 404) vs one resource with two routes (405)
+        Table {
+            children: vec![
+                Node::Sugar { path: "/a".into(), route: r(1, get()) },
+                Node::Sugar { path: "/a".into(), route: r(2, del()) },
+                res(3, &["/b"], vec![r(4, get()), r(5, del())]),
+            ],
+            default: None,
+            data: [None, None],
+        },
+        // a prefix that is also a resource, both orders
+        Table {
+            children: vec![
+                res(1, &["/a"], vec![r(2, vec![])]),
+                scope(3, "/a", vec![res(4, &["/{y}"], vec![r(5, vec![])])], Some(6), [None, None]),
+                scope(7, "/b", vec![res(8, &["/{y}"], vec![r(9, vec![])])], None, [None, None]),
+                res(10, &["/b"], vec![r(11, vec![])]),
+            ],
+            default: None,
+            data: [None, None],
+        },
+        // nested default-less scope inside a scope with a custom default; data shadowing
+        Table {
+            children: vec![scope(
+                1,
+                "/a",
+                vec![scope(2, "/b", vec![res(3, &["/1"], vec![r(4, vec![])])], None, [None, Some(5)]), res(6, &["/{y}"], vec![r(7, get())])],
+                Some(8),
+                [Some(9), Some(10)],
+            )],
+            default: Some(11),
+            data: [Some(12), None],
+        },
+        // dynamic prefixes, same name on scope and resource, tail, multi-pattern, regex
+        Table {
+            children: vec![
+                scope(1, "/{x}", vec![res(2, &["/{x}"], vec![r(3, vec![])]), res(4, &[r"/{y:\d+}/{t}*"], vec![r(5, vec![])])], None, [None, None]),
+                res(6, &[r"/{y:\d+}", "/{z}"], vec![r(7, vec![])]),
+            ],
+            default: None,
+            data: [None, None],
+        },
+        // a resource-level guard rejecting the first of two overlapping patterns
+        Table {
+            children: vec![
+                Node::Resource { id: 1, patterns: vec!["/{y}".into()], guards: vec![Guard::Header("x-k".into(), "1".into())], routes: vec![r(2, vec![])], default: None, data: [None, None] },
+                Node::Resource { id: 3, patterns: vec!["/{z}".into()], guards: vec![], routes: vec![r(4, get())], default: Some(5), data: [Some(6), None] },
+                Node::Scope { id: 7, prefix: "/a".into(), guards: vec![Guard::Host("h1.test".into())], children: vec![res(8, &["/b"], vec![r(9, vec![])])], default: None, data: [None, None] },
+                scope(10, "/a", vec![res(11, &["/b"], vec![r(12, vec![])])], None, [None, None]),
+            ],
+            default: None,
+            data: [None, None],
+        },
+    ]
+}
+
+// ------------------------------------------------------------------------------------------------
+// requests
+
+const TOKENS: [&str; 9] = ["/", "a", "b", "1", "%41", "%61", "%2F", "%25", "//"];
+
+/// all paths "/" + up to `n` tokens
+fn all_paths(n: usize) -> Vec<String> {
+    let mut out = vec!["/".to_string()];
+    let mut start = 0;
+    for _ in 0..n {
+        let end = out.len();
+        for i in start..end {
+            for t in TOKENS {
+                out.push(format!("{}{}", out[i], t));
+            }
+        }
+        start = end;
+    }
+    out
+}
+
+const PROFILES: [(&str, Option<(&str, &str)>, Option<&str>); 6] = [
+    ("GET", None, None),
+    ("POST", None, None),
+    ("GET", Some(("x-k", "1")), None),
+    ("DELETE", None, Some("h1.test")),
+    ("GET", Some(("x-k", "2")), Some("h1.test")),
+    ("POST", Some(("x-k", "1")), Some("h2.test")),
+];
+
+fn req_of(path: &str, prof: usize) -> Req {
+    let (m, h, host) = PROFILES[prof % PROFILES.len()];
+    Req { method: m.into(), path: path.into(), query: None, header: h.map(|(a, b)| (a.to_string(), b.to_string())), host: host.map(|s| s.to_string()) }
+}
+
+const RAND_TOKENS: [&str; 18] = ["/", "/", "a", "b", "ab", "1", "12", "%41", "%61", "%2F", "%2f", "%25", "%2B", "%C3%A9", "%FF", "//", "-", "%2"];
+
+fn random_req(rng: &mut Rng) -> Req {
+    let n = rng.range(0, 8);
+    let mut path = String::from("/");
+    for _ in 0..n {
+        path.push_str(*rng.pick(&RAND_TOKENS));
+    }
+    let mut r = req_of(&path, rng.below(PROFILES.len()));
+    if rng.chance(1, 6) {
+        r.method = rng.pick(&["PUT", "HEAD", "PATCH"]).to_string();
+    }
+    if rng.chance(1, 8) {
+        r.query = Some(rng.pick(&["q=1", "x=/a/b", "a%2Fb", ""]).to_string());
+    }
+    r
+}
+
+// ------------------------------------------------------------------------------------------------
+// comparison
+
+struct Mismatch {
+    class: &'static str,
+    detail: String,
+}
+
+fn compare(exp: &Expected, obs: &Obs) -> Result<(), Mismatch> {
+    let who = match obs.who() {
+        Some(w) => w,
+        None => return Err(Mismatch { class: "wrong-service", detail: format!("unexpected answer status={} kind={:?}", obs.status, obs.kind) }),
+    };
+    if !exp.who.contains(&who) {
+        return Err(Mismatch { class: "wrong-service", detail: format!("answered by {:?}, expected {:?} (decision path {})", who, exp.who, exp.trace) });
+    }
+    if matches!(who, Who::Route(_) | Who::Default(_)) {
+        if obs.mi != exp.params {
+            return Err(Mismatch { class: "match-info", detail: format!("{:?} saw match_info {:?}, expected {:?}", who, obs.mi, exp.params) });
+        }
+        if obs.d != exp.data {
+            return Err(Mismatch { class: "app-data", detail: format!("{:?} saw app_data markers {:?}, expected {:?}", who, obs.d, exp.data) });
+        }
+    }
+    Ok(())
+}
+
+fn who_kind(w: &Who) -> &'static str {
+    match w {
+        Who::Route(_) => "route",
+        Who::Default(_) => "custom-default",
+        Who::NotFound => "404",
+        Who::MethodNotAllowed => "405",
+    }
+}
+
+/// Evaluate one table on a batch of requests.  Returns the number of cases evaluated.
+fn run_table(rep: &mut Reporter, table: &Table, reqs: &[Req], sigs: &mut HashSet<String>) -> u64 {
+    let obs = match exec(table, reqs) {
+        Ok(o) => o,
+        Err(p) => {
+            // find the request that panics (or the build itself)
+            let mut culprit: Option<&Req> = None;
+            if exec(table, &[]).is_ok() {
+                for r in reqs {
+                    if exec(table, std::slice::from_ref(r)).is_err() {
+                        culprit = Some(r);
+                        break;
+                    }
+                }
+            }
+            let t = shrink(table, culprit, "panic");
+            rep.violation(
+                "panic",
+                &format!("{} | {} | {}", panic_site(&p), render_table(&t), culprit.map(render_req).unwrap_or_else(|| "init_service".into())),
+                &format!("panic: {p}\n table: {}\n request: {:?}", render_table(&t), culprit.map(render_req)),
+                json!({"table": t, "req": culprit}),
+            );
+            return 0;
+        }
+    };
+    let tshape = shape(table);
+    let mut n = 0;
+    let mut reported = false;
+    for (r, o) in reqs.iter().zip(obs.iter()) {
+        let exp = match rt::route(table, r) {
+            Some(e) => e,
+            None => {
+                rep.inconclusive("generated a table outside the modelled grammar");
+                return n;
+            }
+        };
+        n += 1;
+        match compare(&exp, o) {
+            Ok(()) => {
+                let w = o.who().unwrap();
+                rep.count(&format!("answered-by:{}", who_kind(&w)), 1);
+                if exp.guard_rejected {
+                    rep.count("cases:some-guard-rejected-a-matching-pattern", 1);
+                }
+                if exp.trace.contains("!scope-default") {
+                    rep.count("cases:scope-default-reached", 1);
+                }
+                if exp.latitude {
+                    rep.count(if w == exp.who[0] { "latitude:default-less-nested-scope-used-app-default" } else { "latitude:default-less-nested-scope-used-enclosing-scope-default" }, 1);
+                }
+                if !exp.params.is_empty() {
+                    rep.count("cases:handler-saw-parameters", 1);
+                    if exp.params.iter().any(|(_, v)| v.contains('%')) {
+                        rep.count("cases:parameter-keeps-protected-escape", 1);
+                    }
+                }
+                if r.path.contains('%') && pct_decode::path_view(&r.path) != r.path {
+                    rep.count("cases:path-changed-by-decoding", 1);
+                }
+                if exp.data.iter().any(|d| d.is_some()) && matches!(w, Who::Route(_) | Who::Default(_)) {
+                    rep.count("cases:app-data-visible", 1);
+                }
+                let s = format!("{}|{}|{}", tshape, exp.trace, who_kind(&w));
+                if !sigs.contains(&s) {
+                    rep.sig(&s);
+                    sigs.insert(s);
+                }
+            }
+            Err(m) => {
+                if reported {
+                    rep.count(&format!("violations:{}", m.class), 1);
+                    continue;
+                }
+                reported = true;
+                let t = shrink(table, Some(r), m.class);
+                // re-evaluate on the shrunk table for the detail text
+                let detail = match (rt::route(&t, r), exec(&t, std::slice::from_ref(r))) {
+                    (Some(e), Ok(o)) if !o.is_empty() => compare(&e, &o[0]).err().map(|m| m.detail).unwrap_or(m.detail),
+                    _ => m.detail,
+                };
+                rep.violation(
+                    m.class,
+                    &format!("{} | {}", render_table(&t), render_req(r)),
+                    &format!("{}\n table: {}\n request: {}\n routing view of the path: {:?}", detail, render_table(&t), render_req(r), pct_decode::path_view(&r.path)),
+                    json!({"table": t, "req": r}),
+                );
+            }
+        }
+    }
+    n
+}
+
+// ------------------------------------------------------------------------------------------------
+// shrinking
+
+fn node_variants(n: &Node) -> Vec<Node> {
+    let mut out = vec![];
+    match n {
+        Node::Resource { id, patterns, guards, routes, default, data } => {
+            let mk = |patterns: Vec<String>, guards: Vec<Guard>, routes: Vec<rt::Route>, default: Option<u32>, data: [Option<u32>; 2]| Node::Resource { id: *id, patterns, guards, routes, default, data };
+            if !guards.is_empty() {
+                out.push(mk(patterns.clone(), vec![], routes.clone(), *default, *data));
+            }
+            if patterns.len() > 1 {
+                for i in 0..patterns.len() {
+                    let mut p = patterns.clone();
+                    p.remove(i);
+                    out.push(mk(p, guards.clone(), routes.clone(), *default, *data));
+                }
+            }
+            for i in 0..routes.len() {
+                let mut r = routes.clone();
+                r.remove(i);
+                out.push(mk(patterns.clone(), guards.clone(), r, *default, *data));
+                if !routes[i].guards.is_empty() {
+                    let mut r = routes.clone();
+                    r[i].guards.clear();
+                    out.push(mk(patterns.clone(), guards.clone(), r, *default, *data));
+                }
+            }
+            if default.is_some() {
+                out.push(mk(patterns.clone(), guards.clone(), routes.clone(), None, *data));
+            }
+            if data.iter().any(|d| d.is_some()) {
+                out.push(mk(patterns.clone(), guards.clone(), routes.clone(), *default, [None, None]));
+            }
+        }
+        Node::Sugar { path, route } => {
+            if !route.guards.is_empty() {
+                out.push(Node::Sugar { path: path.clone(), route: rt::Route { id: route.id, guards: vec![] } });
+            }
+        }
+        Node::Scope { id, prefix, guards, children, default, data } => {
+            let mk = |guards: Vec<Guard>, children: Vec<Node>, default: Option<u32>, data: [Option<u32>; 2]| Node::Scope { id: *id, prefix: prefix.clone(), guards, children, default, data };
+            if !guards.is_empty() {
+                out.push(mk(vec![], children.clone(), *default, *data));
+            }
+            if default.is_some() {
+                out.push(mk(guards.clone(), children.clone(), None, *data));
+            }
+            if data.iter().any(|d| d.is_some()) {
+                out.push(mk(guards.clone(), children.clone(), *default, [None, None]));
+            }
+            for c in list_variants(children) {
+                out.push(mk(guards.clone(), c, *default, *data));
+            }
+        }
+    }
+    out
+}
+
+fn list_variants(ns: &[Node]) -> Vec<Vec<Node>> {
+    let mut out = vec![];
+    for i in 0..ns.len() {
+        let mut v = ns.to_vec();
+        v.remove(i);
+        out.push(v);
+    }
+    for i in 0..ns.len() {
+        for nv in node_variants(&ns[i]) {
+            let mut v = ns.to_vec();
+            v[i] = nv;
+            out.push(v);
+        }
+    }
+    out
+}
+
+fn still_fails(t: &Table, req: Option<&Req>, class: &str) -> bool {
+    let reqs: Vec<Req> = req.cloned().into_iter().collect();
+    match exec(t, &reqs) {
+        Err(_) => class == "panic",
+        Ok(obs) => match (req, obs.first()) {
+            (Some(r), Some(o)) => match rt::route(t, r) {
+                Some(e) => compare(&e, o).err().map(|m| m.class == class).unwrap_or(false),
+                None => false,
+            },
+            _ => false,
+        },
+    }
+}
+
+/// Greedy one-step-at-a-time reduction of the table that keeps the same violation class.
+fn shrink(table: &Table, req: Option<&Req>, class: &str) -> Table {
+    let mut cur = table.clone();
+    let mut budget = 300;
+    'again: loop {
+        let mut cands: Vec<Table> = list_variants(&cur.children).into_iter().map(|c| Table { children: c, default: cur.default, data: cur.data }).collect();
+        if cur.default.is_some() {
+            cands.push(Table { children: cur.children.clone(), default: None, data: cur.data });
+        }
+        if cur.data.iter().any(|d| d.is_some()) {
+            cands.push(Table { children: cur.children.clone(), default: cur.default, data: [None, None] });
+        }
+        for c in cands {
+            if budget == 0 {
+                break 'again;
+            }
+            budget -= 1;
+            if still_fails(&c, req, class) {
+                cur = c;
+                continue 'again;
+            }
+        }
+        break;
+    }
+    cur
+}
+
+// ------------------------------------------------------------------------------------------------
+
+pub fn run(ctx: &Ctx, rep: &mut Reporter) {
+    let mut sigs: HashSet<String> = HashSet::new();
+
+    if let Some(rp) = &ctx.replay {
+        rep.sig("replay");
+        rep.sig("replay2");
+        let table: Option<Table> = serde_json::from_value(rp["table"].clone()).ok();
+        let req: Option<Req> = serde_json::from_value(rp["req"].clone()).ok();
+        match table {
+            Some(t) => {
+                let reqs: Vec<Req> = req.into_iter().collect();
+                let n = run_table(rep, &t, &reqs, &mut sigs);
+                rep.count("evaluations", n.max(1));
+            }
+            None => rep.inconclusive("replay file has no table"),
+        }
+        return;
+    }
+
+    let thorough = ctx.thorough();
+    let deep = all_paths(if thorough { 5 } else { 4 });
+    let short = all_paths(3);
+
+    // Phase 1: hand-written tables, every path of the deep enumeration under every profile
+    let mut complete = true;
+    for (ti, t) in fixed_tables().iter().enumerate() {
+        if !rt::well_formed(t) {
+            rep.inconclusive("a hand-written table is outside the grammar");
+            continue;
+        }
+        let mut reqs = vec![];
+        let mut k = 0u64;
+        for p in &deep {
+            for prof in 0..PROFILES.len() {
+                k += 1;
+                if ctx.mine(k + ti as u64) {
+                    reqs.push(req_of(p, prof));
+                }
+            }
+        }
+        if ctx.out_of_time() {
+            complete = false;
+            break;
+        }
+        let n = run_table(rep, t, &reqs, &mut sigs);
+        rep.count("evaluations", n);
+        rep.count("tables:hand-written", if ctx.shard == 0 { 1 } else { 0 });
+    }
+    rep.exhaustive("hand-written tables x all paths of '/'+<=4 (quick) / 5 (thorough) tokens x 6 request profiles", complete);
+
+    // Phase 2: generated tables.  Each: all short paths under every profile, every deep path under
+    // a rotating profile (quick: every 4th table, others a third of them), and random requests.
+    // (the number of tables is a sample size, not a space: running out of time only lowers it)
+    let ntables = ctx.share(2400, 30000);
+    let small_complete = true;
+    for k in 0..ntables {
+        if ctx.out_of_time() {
+            rep.count("tables:not-run-for-lack-of-time", ntables - k);
+            break;
+        }
+        let case = k * ctx.nshards + ctx.shard;
+        let mut rng = Rng::derive(ctx.seed, 0xC09, case);
+        let table = gen_table(&mut rng);
+        let mut reqs: Vec<Req> = vec![];
+        for p in &short {
+            for prof in 0..PROFILES.len() {
+                reqs.push(req_of(p, prof));
+            }
+        }
+        let full = k % 4 == 0;
+        let off = rng.below(3);
+        for (i, p) in deep.iter().enumerate() {
+            if p.len() <= 2 {
+                continue;
+            }
+            if full || i % 3 == off {
+                reqs.push(req_of(p, i + k as usize));
+            }
+        }
+        for _ in 0..200 {
+            reqs.push(random_req(&mut rng));
+        }
+        // http::Uri must accept the target (TestRequest::uri panics otherwise)
+        reqs.retain(|r| uri_of(r).parse::<actix_web::http::Uri>().is_ok());
+        let n = run_table(rep, &table, &reqs, &mut sigs);
+        rep.count("evaluations", n);
+        rep.count("tables:generated", 1);
+        if full {
+            rep.count("tables:generated-with-full-deep-enumeration", 1);
+        }
+        rep.max("table:nodes", count_nodes(&table.children) as u64);
+        rep.max("table:depth", depth(&table.children) as u64);
+        if k < 2 && ctx.shard == 0 {
+            let r = &reqs[reqs.len() - 1];
+            rep.sample("table", json!({"table": render_table(&table), "request": render_req(r), "expected": rt::route(&table, r).map(|e| format!("{:?} params={:?} data={:?}", e.who, e.params, e.data))}));
+        }
+    }
+    rep.exhaustive("generated tables x all paths of '/'+<=3 tokens x 6 request profiles", small_complete);
+}
+
+fn count_nodes(ns: &[Node]) -> usize {
+    ns.iter().map(|n| 1 + if let Node::Scope { children, .. } = n { count_nodes(children) } else { 0 }).sum()
+}
+
+fn depth(ns: &[Node]) -> usize {
+    ns.iter().map(|n| 1 + if let Node::Scope { children, .. } = n { depth(children) } else { 0 }).max().unwrap_or(0)
 }
